@@ -106,6 +106,8 @@ class Accumulator(Module):
             self.reduce = fn
         else:
             self.reduce = torch.sum
+        self._pos_cache.cache_clear()
+        self._neg_cache.cache_clear()
 
     def upperbound(
         self,
